@@ -1,8 +1,8 @@
 package branch_control
 
 const verifBoundPat = 4
-const verifBoundStr = 4
+const verifBoundStr = 3
 const verifBoundFoldPat = 4
-const verifBoundRulePat = 3
+const verifBoundRulePat = 2
 const verifBoundHistPat = 2
 const verifBoundReq = 3
